@@ -96,6 +96,13 @@ NOTES = {
     "C05-s12": "C05 first missed it (C10 caught it): initial worlds carry log files of a target removed from the workflow — a preview must leave them",
     "C02-s11": "first missed by C02 and C09: the scheduler rejects the k-th submission (C02: nothing downstream of the rejected target is submitted; C09: what the interrupted run did submit names the right prerequisites)",
     "C02-s12": "changes what a dry run does to the hash file — C05 (previews change nothing) and C18 (records only on accepted submission) report it; C02 is about real runs",
+    "C13-s12": "first missed: the pool is shut down (Scheduler.shutdown) while one task runs, one waits for a core and one waits for a dependency",
+    "C01-s11": "first missed: real files dated far in the future through the CLI (the function-level family pre-fills the cache and never stats)",
+    "C04-s11": "C04 first missed it (C01 caught it): a source file dated exactly the epoch / before it among the real-file-system input kinds",
+    "C03-s11": "corrupts `graph.endpoints()` from inside `schedule()` (reads the defaultdict `dependents`): C05 reports it through `status --endpoints`; C03 examines the graph as built",
+    "C03-s12": "first missed: targets whose containers are filled in place after the target was created and asked once for its files",
+    "C16-s11": "first a harness error: the change touches files from a thread pool, the violation found did not replay. Violations that were observed but do not reproduce alone are now reported (exit 1) with a note, after up to ten replays of several recorded cases",
+    "C16-s12": "C16 first missed it (C18 caught it): hash file in which only the first target's record is out of date",
     "C07-s8": "first missed: the scheduler moves while gwf is submitting (one environment step before the k-th scheduler command of a run)",
 }
 
